@@ -163,9 +163,19 @@ func VerifPolyChallenge(c *[N]int32, seed []uint8) error {
 	return err
 }
 
-// VerifSignAttempts counts rejection-loop iterations of cryptoSignSignature since
-// the process started (single-goroutine use only; it is read by a search tool that
-// looks for inputs with unusually long rejection runs, never by a verdict).
-var VerifSignAttempts uint64
+// VerifSignAttempts counts rejection-loop iterations of cryptoSignSignature while
+// VerifCountAttempts is set. Only a single-goroutine search tool sets the switch
+// (before it signs anything) and reads the counter; it looks for inputs with
+// unusually long rejection runs and never contributes to a verdict. With the
+// switch off -- always, in the checks -- the hook only reads a variable nobody
+// writes, so it adds neither shared writes nor synchronisation to concurrent signing.
+var (
+	VerifCountAttempts bool
+	VerifSignAttempts  uint64
+)
 
-func verifSignAttempt() { VerifSignAttempts++ }
+func verifSignAttempt() {
+	if VerifCountAttempts {
+		VerifSignAttempts++
+	}
+}
